@@ -578,6 +578,47 @@ func (c *scen) forgeryScenarios() {
 		}
 	}
 
+	// two trust-store certificates with the SAME subject and subject key identifier but DIFFERENT keys: the sibling is not
+	// a usable CA (no CA flag / expired before the signing time) and the signer certificate is signed with ITS key.
+	// Eligibility and signature must be established for one and the same candidate, in either store order.
+	for vi, variant := range []string{"not-a-ca", "expired"} {
+		cs := CertSpec{Rand: c.sub(71 + int64(vi)), Subject: DN("NL", "State of the Netherlands", "CSCA NL"), KeySpec: c.ks, KeySlot: slotOtherCA, SKI: &KeyID{Value: c.csca.SKI}}
+		if variant == "not-a-ca" {
+			cs.BasicConstraints = &BasicConstraints{CA: false, Critical: true}
+			cs.KeyUsage = &KeyUsage{Bits: []int{KUDigitalSignature}, Critical: true}
+		} else {
+			cs.NotBefore, cs.NotAfter = time.Date(2010, 1, 1, 0, 0, 0, 0, time.UTC), time.Date(2019, 1, 1, 0, 0, 0, 0, time.UTC)
+		}
+		sib, err := NewCA(cs)
+		c.fail(err)
+		if sib == nil {
+			continue
+		}
+		ds, err := sib.IssueDS(CertSpec{Subject: DN("NL", "State of the Netherlands", "DS 1"), KeySlot: slotOtherDS})
+		c.fail(err)
+		if ds == nil {
+			continue
+		}
+		f("same-ski-sibling-"+variant+"-signs-sibling-first", "trust store: a "+variant+" certificate with the CSCA's subject and key identifier but another key, then the CSCA; signer certificate signed with the sibling's key", c.sod(NewSODSpec(ds, c.dgs, st)), nil, [][]byte{sib.Cert, c.csca.Cert})
+		f("same-ski-sibling-"+variant+"-signs-csca-first", "as before, CSCA first", c.sod(NewSODSpec(ds, c.dgs, st)), nil, [][]byte{c.csca.Cert, sib.Cert})
+	}
+	{
+		// a CA certificate for a key of its own, subject C=NL, ISSUED by the CSCA of another country that is in the trust
+		// store too: it is a certificate of that other country's PKI (the trust store is scoped by the issuing country)
+		fr, err := NewCA(CertSpec{Rand: c.sub(81), Subject: DN("FR", "Other State", "CSCA FR"), KeySpec: c.ks, KeySlot: slotOtherCA})
+		c.fail(err)
+		if fr != nil {
+			sub, err := fr.IssueCA(CertSpec{Subject: DN("NL", "State of the Netherlands", "CSCA NL"), KeySlot: slotOtherDS})
+			c.fail(err)
+			if sub != nil {
+				ds, err := sub.IssueDS(CertSpec{Subject: DN("NL", "State of the Netherlands", "DS 1"), KeySlot: slotOtherDS + 1})
+				c.fail(err)
+				if ds != nil {
+					f("ca-with-document-country-subject-issued-by-foreign-csca", "trust store: CSCA NL, CSCA FR, and a CA certificate with subject C=NL issued by CSCA FR; signer certificate under that CA", c.sod(NewSODSpec(ds, c.dgs, st)), nil, [][]byte{c.csca.Cert, fr.Cert, sub.Cert})
+				}
+			}
+		}
+	}
 	f("ds-expired-at-signing-time", "signing time 2036-01-01, after the DS certificate's notAfter", c.sod(NewSODSpec(c.ds, c.dgs, time.Date(2036, 1, 1, 0, 0, 0, 0, time.UTC))), nil, nil)
 	f("ds-not-yet-valid-at-signing-time", "signing time 2019-01-01, before the DS certificate's notBefore", c.sod(NewSODSpec(c.ds, c.dgs, time.Date(2019, 1, 1, 0, 0, 0, 0, time.UTC))), nil, nil)
 	{
